@@ -140,7 +140,7 @@ type Cache = TinyLFU<u64, u64, Lsn>;
 
 // ------------------------------------------------------------------ one single-thread case
 #[derive(Default, Clone)]
-struct Stats { ops: BTreeMap<&'static str, u64>, evictions: u64, kept_pinned: u64, maint_rounds: u64, max_excess: i64, max_resident: u64, panics: u64 }
+struct Stats { ops: BTreeMap<&'static str, u64>, evictions: u64, kept_pinned: u64, maint_rounds: u64, max_excess: i64, max_excess_notify: i64, max_excess_poll: i64, max_resident: u64, panics: u64 }
 
 struct Fail { sig: String, desc: String, at: usize }
 
@@ -247,6 +247,7 @@ impl Sim {
         let resident = self.refmap.len() as i64; let pinned_now = pinned_keys.len() as i64;
         st.max_resident = st.max_resident.max(resident as u64);
         let excess = resident - self.max_cap as i64 - pinned_now; st.max_excess = st.max_excess.max(excess);
+        if self.hdr.poll { st.max_excess_poll = st.max_excess_poll.max(excess); } else if !self.hdr.tokv && !self.quiet_unpin_seen { st.max_excess_notify = st.max_excess_notify.max(excess); }
         if !self.hdr.poll && !self.hdr.tokv && !self.quiet_unpin_seen && excess > 32 {
             flag("bound-notify", format!("resident {resident} > capacity {} + pinned {pinned_now} + 32", self.max_cap)); }
         let region = self.maybe_region.iter().filter(|k| self.refmap.contains_key(k)).count() as i64;
@@ -392,6 +393,21 @@ fn canonical_f4() -> (Header, Vec<O>) {
     (Header { cap: 1, poll: false, tokv: false }, ops)
 }
 
+/// `Poll` adversary (see `bounded_poll_slack32_refuted` in Props/C16.lean): `b` keys stay pinned for ever and sit
+/// in the pinned region; every round pins 33 fresh keys, inserts them (the 33rd insert runs maintenance) and
+/// silently releases them.  The trim loop stops at the first still-pinned entry, so released entries survive.
+fn poll_adversary(b: u64, rounds: u64) -> (Header, Vec<O>) {
+    let mut ops = vec![]; let mut nxt = 1000u64;
+    for i in 1..=b { ops.push(O::Pin(i)); ops.push(O::Put(i, i)); }
+    for _ in 0..40 { ops.push(O::Put(nxt, 0)); nxt += 1; }
+    for _ in 0..rounds {
+        let ks: Vec<u64> = (nxt..nxt + 33).collect(); nxt += 33;
+        for k in &ks { ops.push(O::Pin(*k)); } for k in &ks { ops.push(O::Put(*k, 0)); } for k in &ks { ops.push(O::Unpin(*k)); }
+        ops.push(O::Len);
+    }
+    (Header { cap: 1, poll: true, tokv: false }, ops)
+}
+
 // ------------------------------------------------------------------ part 2: multi-threaded, oracle only
 struct MtReport { runs: u64, ops: u64, fails: Vec<(String, String, String)> }
 
@@ -402,10 +418,10 @@ fn mt_cache_run(seed: u64, rep: &mut MtReport) {
     let cache: Arc<Cache> = Arc::new(Cache::new(cap, if poll { UnpinStrategy::Poll } else { UnpinStrategy::Notify }, MaintenanceMode::Piggyback));
     let desc = format!("mt-cache seed={seed} cap={cap} {} threads={threads} keys/thread={per} iters={iters}", if poll { "Poll" } else { "Notify" });
     let fails: Arc<parking_lot::Mutex<Vec<(String, String)>>> = Arc::new(parking_lot::Mutex::new(vec![]));
-    let total = AtomicU64::new(0);
+    let total = AtomicU64::new(0); let panicked = AtomicBool::new(false);
     std::thread::scope(|s| {
         for t in 0..threads {
-            let cache = cache.clone(); let fails = fails.clone(); let total = &total; let mut rng = Rng::new(seed.wrapping_mul(31).wrapping_add(t));
+            let cache = cache.clone(); let fails = fails.clone(); let total = &total; let panicked = &panicked; let mut rng = Rng::new(seed.wrapping_mul(31).wrapping_add(t));
             s.spawn(move || {
                 // thread t owns keys t*per .. (t+1)*per: only the owner writes/removes/pins them
                 let base = t * per; let mut mine: HashMap<u64, u64> = HashMap::new(); let mut pinned: HashSet<u64> = HashSet::new(); let mut ctr = 0u64;
@@ -432,11 +448,13 @@ fn mt_cache_run(seed: u64, rep: &mut MtReport) {
                     }
                     for k in pinned.drain() { unpin_tok(k); if !poll { cache.unpin(k); } }
                 }));
-                if res.is_err() { fails.lock().push((panic_sig(), "a cache call panicked in a worker thread".into())); }
+                if res.is_err() { panicked.store(true, Ordering::SeqCst); }
             });
         }
     });
     rep.runs += 1; rep.ops += total.load(Ordering::Relaxed);
+    // the hook keeps the FIRST panic of the run (later ones may be consequences of the interrupted maintenance)
+    if panicked.load(Ordering::SeqCst) { fails.lock().insert(0, (panic_sig(), "a cache call panicked in a worker thread".into())); }
     let mut fs = fails.lock().clone();
     if fs.iter().all(|f| !f.0.starts_with("panic")) {
         // quiescent: nothing pinned any more; push maintenance rounds, then the resident count must be within capacity + 32
@@ -501,7 +519,8 @@ fn mt_lock_run(seed: u64, rep: &mut MtReport) {
                 }
             }));
         }
-        for h in hs { if h.await.is_err() { fails.lock().push((panic_sig(), "a lock-table task panicked".into())); } }
+        let mut any = false; for h in hs { if h.await.is_err() { any = true; } }
+        if any { fails.lock().insert(0, (panic_sig(), "a lock-table task panicked".into())); }
     })));
     if res.is_err() { fails.lock().push((panic_sig(), "the lock-table run panicked".into())); }
     rep.runs += 1; rep.ops += total.load(Ordering::Relaxed);
@@ -521,6 +540,7 @@ fn main() {
     let mut evals = 0u64; let mut distinct: HashSet<u64> = HashSet::new(); let mut samples: Vec<String> = vec![];
     let mut caps_hist: BTreeMap<&'static str, u64> = BTreeMap::new(); let mut strat: BTreeMap<&'static str, u64> = BTreeMap::new();
     let mut len_hist: BTreeMap<&'static str, u64> = BTreeMap::new();
+    let mut poll_probe: Vec<(u64, i64)> = vec![];
     let mut emit = |co: &CaseOut, out: &mut Out| { for (o, i) in &co.lines { out.line(o, i); } };
     let hasher = fxhash::FxBuildHasher::default();
 
@@ -548,8 +568,16 @@ fn main() {
         // canonical replay of the known finding first (shard with the base seed only would do; it is cheap)
         { let (h, ops) = canonical_f4(); let co = replay_ops(&h, &ops, &mut st); emit(&co, &mut out); evals += 1;
           if let Some(fl) = &co.fail { fails.push((fl.sig.clone(), format!("[canonical F4] {}", fl.desc), case_text(&h, &ops[..=fl.at]))); } }
+        // the Poll adversary family on the real cache: excess of resident over capacity + pinned, per number of blockers
+        for b in [0u64, 2, 5, 10, 20, 40] {
+            let (h, ops) = poll_adversary(b, b + 6); let mut st2 = Stats::default();
+            let co = replay_ops(&h, &ops, &mut st2); emit(&co, &mut out); evals += 1;
+            let last = co.lines.iter().rev().find(|l| l.0 == "len").and_then(|l| l.1.strip_prefix("len ").and_then(|x| x.split_whitespace().next()).and_then(|x| x.parse::<i64>().ok())).unwrap_or(-1);
+            poll_probe.push((b, last - 2 - b as i64));
+            if let Some(fl) = &co.fail { fails.push((fl.sig.clone(), format!("[poll adversary b={b}] {}", fl.desc), case_text(&h, &ops[..=fl.at]))); }
+        }
         let n_cases = a.n.unwrap_or(if quick { 260 } else { 1500 });
-        let mut master = Rng::new(a.seed);
+        let mut master = Rng::new(a.seed); let mut shrunk = 0; let mut stopped_early = false;
         for _ in 0..n_cases {
             let cs = master.next(); let mut r = Rng::new(cs);
             let lock_mode = r.chance(1, 10);
@@ -563,9 +591,13 @@ fn main() {
             *len_hist.entry(match ops.len() { 0..=199 => "ops <200 (ended by a failure)", 200..=499 => "ops 200-499", 500..=1199 => "ops 500-1199", _ => "ops >=1200" }).or_insert(0) += 1;
             if co.nontrivial { let t = case_text(&hdr, &ops); distinct.insert(hasher.hash_one(&t)); if samples.len() < 4 && ops.len() < 260 { samples.push(t.chars().take(300).collect()); } }
             if let Some(fl) = co.fail {
-                let small = shrink(&hdr, ops[..=fl.at].to_vec(), &fl.sig);
-                if fails.iter().filter(|f| f.0 == fl.sig).count() < 2 { fails.push((fl.sig.clone(), fl.desc.clone(), case_text(&hdr, &small))); }
-                else { fails.push((fl.sig.clone(), fl.desc.clone(), String::new())); }
+                // shrink only the first two failures of a signature (and at most 6 per shard); a storm of failures ends the shard
+                if fails.iter().filter(|f| f.0 == fl.sig).count() < 2 && shrunk < 6 {
+                    shrunk += 1;
+                    let small = shrink(&hdr, ops[..=fl.at].to_vec(), &fl.sig);
+                    fails.push((fl.sig.clone(), fl.desc.clone(), case_text(&hdr, &small)));
+                } else { fails.push((fl.sig.clone(), fl.desc.clone(), String::new())); }
+                if fails.len() >= 60 { stopped_early = true; break; }
             }
         }
         // part 2
@@ -575,6 +607,7 @@ fn main() {
         let mt_cache_ops = rep.ops;
         for i in 0..n_lock { mt_lock_run(a.seed.wrapping_mul(1000).wrapping_add(i), &mut rep); }
         evals += rep.runs;
+        if stopped_early { strat.insert("shard stopped early after 60 oracle failures", 1); }
         strat.insert("mt-cache runs", n_mt); strat.insert("mt-lock-table runs", n_lock);
         strat.insert("mt-cache ops", mt_cache_ops); strat.insert("mt-lock-table acquisitions", rep.ops - mt_cache_ops);
         fails.extend(rep.fails);
@@ -584,8 +617,8 @@ fn main() {
     let fj: Vec<String> = fails.iter().map(|(s, d, c)| format!("{{\"sig\":{},\"desc\":{},\"case\":{}}}", jstr(s), jstr(d), jstr(c))).collect();
     let sj: Vec<String> = samples.iter().map(|s| jstr(s)).collect();
     let report = format!(
-        "{{\"evaluations\":{evals},\"distinct_nontrivial\":{},\"rule\":{},\"samples\":[{}],\"distribution\":{{\"ops\":{},\"capacity\":{},\"strategy\":{},\"length\":{},\"evictions\":{},\"eviction_attempts_refused_pinned\":{},\"maintenance_rounds\":{},\"max_resident\":{},\"max_resident_minus_capacity_minus_pinned\":{},\"panics\":{}}},\"oracle_failures\":[{}]}}",
+        "{{\"evaluations\":{evals},\"distinct_nontrivial\":{},\"rule\":{},\"samples\":[{}],\"distribution\":{{\"ops\":{},\"capacity\":{},\"strategy\":{},\"length\":{},\"evictions\":{},\"eviction_attempts_refused_pinned\":{},\"maintenance_rounds\":{},\"max_resident\":{},\"max_resident_minus_capacity_minus_pinned\":{},\"max_excess_notify_protocol_followed\":{},\"max_excess_poll\":{},\"poll_adversary_excess_by_blockers\":{{{}}},\"panics\":{}}},\"oracle_failures\":[{}]}}",
         distinct.len(), jstr("a history is non-trivial when the cache evicted at least one entry and the listener refused at least one eviction of a pinned entry"),
-        sj.join(","), jmap(&st.ops), jmap(&caps_hist), jmap(&strat), jmap(&len_hist), st.evictions, st.kept_pinned, st.maint_rounds, st.max_resident, st.max_excess, st.panics, fj.join(","));
+        sj.join(","), jmap(&st.ops), jmap(&caps_hist), jmap(&strat), jmap(&len_hist), st.evictions, st.kept_pinned, st.maint_rounds, st.max_resident, st.max_excess, st.max_excess_notify, st.max_excess_poll, poll_probe.iter().map(|(b, e)| format!("\"{b}\":{e}")).collect::<Vec<_>>().join(","), st.panics, fj.join(","));
     out.finish(&report);
 }
